@@ -1,6 +1,6 @@
 """C07 - Reported machine state mirrors the emitted program (E1)."""
 
-from ._base import BuilderSystem, run_configs, replay_history, with_debug_logging, with_bystander
+from ._base import BuilderSystem, run_configs, replay_history, with_debug_logging, with_bystander, replayed
 from ..common import rf
 
 SPIN = {"clockwise": "M3", "counter": "M4"}
@@ -182,7 +182,7 @@ def systems(tier):
     grid = (0, 1, 50, 1200.5)
     return [("full-api", C07System(grid), 3 if tier == "quick" else 4, None),
             ("bounded-with-rejections-bystander", with_bystander(C07System(grid, bounded=True)), 3 if tier == "quick" else 4, None),
-            ("with-move-hooks-debug-logging", with_debug_logging(C07System(grid, hooks=True)), 2 if tier == "quick" else 3, None)]
+            ("with-move-hooks-debug-logging", replayed(with_debug_logging(C07System(grid, hooks=True))), 2 if tier == "quick" else 3, None)]
 
 
 def run(tier, seed):
